@@ -426,13 +426,15 @@ func c08defaults(c *Ctx, rd *reader, rule string) {
 // c08readBuffer: (*Conn).read(n) peeks n <= 125 bytes, which fails with
 // bufio.ErrBufferFull on a smaller reader: every reader a Conn can get must be
 // at least maxControlFramePayloadSize bytes.
-func c08readBuffer(c *Ctx, rd *reader) {
+func c08readBuffer(c *Ctx, rd *reader) { c08readBufferAs(c, rd, "C08.read-buffer") }
+
+func c08readBufferAs(c *Ctx, rd *reader, rule string) {
 	r := c.R
 	nc := c.fn("newConn")
 	max := c.P.ConstInt("maxControlFramePayloadSize")
 	ok, why := true, "newConn allocates bufio.NewReaderSize(conn, n) with n >= maxControlFramePayloadSize, or keeps the caller's reader"
 	n := 0
-	c.explore("C08.read-buffer", nc, core.Opts{}, func(p *core.Path) {
+	c.explore(rule, nc, core.Opts{}, func(p *core.Path) {
 		if p.End != core.EndReturn {
 			return
 		}
@@ -459,7 +461,7 @@ func c08readBuffer(c *Ctx, rd *reader) {
 			}
 		}
 	})
-	r.Check("C08.read-buffer", shortFn(nc), "allocated-reader-holds-a-control-frame", nc.Pos(), ok && n > 0, why)
+	r.Check(rule, shortFn(nc), "allocated-reader-holds-a-control-frame", nc.Pos(), ok && n > 0, why)
 	// callers that hand newConn a reader
 	for _, g := range c.P.FuncList {
 		if !callsDirectly(g, nc) {
@@ -503,7 +505,7 @@ func c08readBuffer(c *Ctx, rd *reader) {
 				okC, whyC = false, shortFn(g)+" hands newConn the reader "+br.String()+" without knowing its size to be >= maxControlFramePayloadSize (a small hijacked reader cannot hold a 125-byte control frame)"
 			}
 		}
-		c.explore("C08.read-buffer", g, o, func(p *core.Path) {})
-		r.Check("C08.read-buffer", shortFn(g), "caller-reader-holds-a-control-frame", g.Pos(), okC && nCalls > 0, whyC)
+		c.explore(rule, g, o, func(p *core.Path) {})
+		r.Check(rule, shortFn(g), "caller-reader-holds-a-control-frame", g.Pos(), okC && nCalls > 0, whyC)
 	}
 }
